@@ -21,19 +21,33 @@ EXTRA_PROPERTIES_FILES = [fa.PROPERTIES_FILE, bm.PROPERTIES_FILE, bm.PROPERTIES_
 ALLOWED_AXIOMS = set()
 TRANSLATORS = [gc.translate_gausscirc, gc.translate_gaussmat_fn]
 RULE = ("(a) generated-function and read-out correspondence (GaussianModes methods, scovmatxp/smeanxp) at binary64; (b) differential search: random "
-        "programs (n = 1..4 modes, 1..7 commands over gates/channels/preparations incl. daggers, zero and multiple-of-pi parameters, any ordered "
-        "targets) run on gaussian, bosonic and an independent numpy phase-space reference; fock-pure vs fock-mixed (dm, incl. non-Gaussian gates); "
-        "gaussian vs fock (density matrix via The Walrus, tolerance scaled by truncated trace); non-trivial = >= 2 modes and some command whose targets "
-        "are not (0) / (0,1) in ascending order")
+        "programs (n = 1..6 modes, 1..7 commands over gates/channels/preparations incl. daggers, zero / tiny / multiple-of-pi parameters, any ordered "
+        "targets, New/Del histories, post-selected homodyne / heterodyne, Gaussian(V, r) with and without decomposition, PassiveChannel, Interferometer "
+        "(all 7 meshes), GaussianTransform, free parameters bound by Engine.run(args=...) and parameters fed forward from a measurement, conventions "
+        "hbar in {2, 1, 0.5, 3, 1.7}, reduced states requested through Engine.run(modes=...)) run on gaussian, bosonic and an independent numpy "
+        "phase-space reference; fock-pure vs fock-mixed (dm, incl. non-Gaussian gates, cat states, post-selected homodyne / Fock measurements, "
+        "New/Del, cutoffs 4..9, run(modes=...) vs the partial trace); gaussian vs fock (exact matrix elements via The Walrus, tolerance from the "
+        "trace deficit capped by what truncation can explain); bosonic vs fock for cat / GKP / Fock-state preparations followed by Gaussian "
+        "operations (moments, single-mode Wigner functions, photon statistics); bosonic MSgate vs the documented average map and, with an "
+        "ideal ancilla, vs the squeezing gate; backend.reset() vs a fresh circuit; (c) deterministic sweeps on correlated registers: every "
+        "preparation / loss on every mode and every two-mode gate on every ordered pair of 3 modes (gaussian vs fock-pure vs fock-mixed), "
+        "New/Del histories (single and double deletions, re-allocation), every ordered subset for run(modes=...), every Interferometer mesh "
+        "on 2..4 shuffled modes, GaussianTransform passive/active, every branch of Gaussian's decomposition; non-trivial = >= 2 modes and some "
+        "command whose targets are not (0) / (0,1) in ascending order")
 TRUSTED_BASE = [
     "Coq 8.16.1 kernel; vm_compute for evaluating generated functions at PrimFloat",
     "translator tools/translate_gauss.py (fail-closed; validated against GaussianModes at binary64 on every run); hand model Base/PhaseSpace.v of "
     "scovmatxp/smeanxp tied by float correspondence",
-    "independent phase-space reference in tools/props/c01.py (documented symplectic matrices, hbar = 2) — a test oracle",
+    "independent phase-space reference in tools/props/c01.py (documented symplectic matrices, hbar = 2; programs written for another hbar are "
+    "rescaled by the documented units of Xgate / Zgate / homodyne outcomes / Gaussian moments) — a test oracle",
+    "ladder-operator moments of Fock density tensors and numpy partial traces in tools/props/c01.py; BaseFockState / BaseBosonicState wigner() and "
+    "mean_photon() of strawberryfields/backends/states.py as read-outs for the bosonic-vs-fock comparison",
     "The Walrus density_matrix as bridge between Gaussian and Fock representations (library)",
 ]
 ASSUMPTIONS = ["Fock matrix elements of gates (The Walrus / ops.py closed forms) are not modelled: agreement with the Fock simulator is search-only",
-               "bosonic backend covered by differential search only (no Coq model yet)"]
+               "non-Gaussian preparations of the bosonic backend (cat / GKP / Fock weights, means, covs), decompositions in ops.py, hbar conventions, "
+               "Engine.run(modes=...), reset(): search-only",
+               "bosonic Fock(n) is an approximation (quality parameter r = 0.05): compared with 0.03 n tolerance and never followed by post-selection"]
 MANIFEST_TEXT = ("Proved over any commutative ring, all register sizes / target positions / parameters: read-out(op s) = documented symplectic-affine map "
                  "applied to read-out(s) for rotation, squeezing, displacement, beam splitter, loss, thermal loss, thermal preparation of GaussianModes "
                  "(model regenerated each run); Fock simulator: gates act on exactly the listed modes in the listed order, pure and mixed representations "
@@ -476,7 +490,8 @@ def _np_seed(rng):
 def interferometer_cmd(rng, n, meshes=MESHES):
     """Interferometer(U, mesh) on 2..4 modes listed in a random order; U Haar random, a phase screen, or a permutation."""
     from thewalrus.random import random_interferometer
-    k = rng.randint(2, min(4, n))
+    mesh = rng.choice([m for m in meshes if n >= 3 or m != "sun_compact"])
+    k = rng.randint(3 if mesh == "sun_compact" else 2, min(4, n))   # sun_compact: documented for >= 3 x 3 only
     _np_seed(rng)
     kind = rng.random()
     if kind < 0.12:
@@ -485,7 +500,6 @@ def interferometer_cmd(rng, n, meshes=MESHES):
         U = np.eye(k)[np.random.permutation(k)].astype(complex)
     else:
         U = random_interferometer(k)
-    mesh = rng.choice([m for m in meshes if k >= 3 or m != "sun_compact"])   # sun_compact: documented for >= 3 x 3 only
     return ["Interferometer", [U.real.tolist(), U.imag.tolist(), mesh], rng.sample(range(n), k), False]
 
 
@@ -565,6 +579,7 @@ def sig_cfg(hbar=2.0, modes=None):
 
 def search(ctx):
     search_gbr(ctx)
+    search_decomp_sweep(ctx)
     search_fock_pm(ctx)
     search_gauss_fock(ctx)
     search_layout_sweep(ctx)
@@ -687,6 +702,57 @@ def tiny_params(rng, spec, prob=0.04):
     for c in spec["cmds"]:
         if c[0] in sfgen.GAUSSIAN_GATES and c[1] and isinstance(c[1][0], float) and rng.random() < prob:
             c[1][0] = rng.choice([1e-4, -3e-5, 2e-6, -1e-3])
+
+
+def search_decomp_sweep(ctx):
+    """Every mesh of Interferometer on 2, 3 and 4 shuffled modes, GaussianTransform (passive / active) on 1..3 modes and every branch of
+    Gaussian(V, r)'s decomposition on 1..3 modes of a correlated 4-mode register: gaussian (and bosonic where accepted) vs reference."""
+    rng = ctx.rng
+    n = 4
+    cmds = []
+    for mesh in MESHES:
+        for k in (2, 3, 4):
+            if mesh == "sun_compact" and k < 3:
+                continue
+            while True:
+                c = interferometer_cmd(rng, n, [mesh])
+                U = np.array(c[1][0]) + 1j * np.array(c[1][1])
+                if len(c[2]) == k and np.abs(U - np.diag(np.diag(U))).max() > 0.2 and np.abs(np.abs(U) - np.round(np.abs(U))).max() > 0.05:
+                    break
+            cmds.append(c)
+    for k in (1, 2, 3):
+        for passive in (False, True):
+            while True:
+                c = gaussian_transform_cmd(rng, n)
+                S = np.array(c[1][0])
+                if len(c[2]) == k and (np.abs(S @ S.T - np.eye(2 * k)).max() < 1e-9) == passive:
+                    break
+            cmds.append(c)
+    seen = set()
+    for _ in range(400):
+        c = gaussian_prep_cmd(rng, n, decomp=True)
+        V = np.array(c[1][0])
+        k = len(c[2])
+        diag = bool(np.all(V == np.diag(np.diag(V))))
+        pure = abs(np.linalg.det(V) - 1) < 1e-6
+        key = (k, diag, pure, bool(np.abs(V[:k, k:]).max() > 1e-9), bool(k > 1 and np.abs(V[0, 1:k]).max() > 1e-9))
+        if key not in seen:
+            seen.add(key)
+            cmds.append(c)
+    for c in cmds:
+        spec = {"n": n, "cmds": sfgen.entangling_prefix(rng, n) + [c]}
+        data = {"check": "gbr", "spec": spec, "hbar": 2.0, "modes": None}
+        try:
+            gb, gr, br = gbr_flags(spec)
+        except Exception as e:
+            ctx.counterexample("gbr:raises:%s:%s" % (type(e).__name__, c[0]), "running %s raised %r" % (spec, e), data)
+            continue
+        ctx.case(spec, nontrivial=True, bucket="decomp-sweep")
+        if gb or gr or br:
+            who = "gaussian" if (gr and not br) else "bosonic" if (br and not gr) else "reference-or-frontend" if (gr and br and not gb) else "several"
+            what = c[0] + (":" + c[1][2] if c[0] == "Interferometer" else "")
+            ctx.counterexample("diff:%s:sweep:%s" % (who, what), "gaussian / bosonic / phase-space reference disagree (g-b %s, g-ref %s, b-ref %s) on %s (%d modes %s) after an entangling prefix: %s"
+                               % (gb, gr, br, what, len(c[2]), c[2], spec), data)
 
 
 def any_diff_safe(spec, hbar, modes):
@@ -1246,8 +1312,19 @@ def search_reset(ctx):
                                % (kind, d, data), data)
 
 
+def _prune_free(spec):
+    if "free" in spec:
+        used = {x["free"] for c in spec["cmds"] for x in c[1] if isinstance(x, dict) and "free" in x}
+        spec = dict(spec, free={k: v for k, v in spec["free"].items() if k in used})
+    return spec
+
+
 def shrink(spec, pred):
     """Greedy removal of commands while the predicate keeps failing."""
+    return _prune_free(_shrink(spec, pred))
+
+
+def _shrink(spec, pred):
     cur = dict(spec, cmds=list(spec["cmds"]))
     if "live" in cur:
         return cur   # New / Del histories: indices depend on the history, keep as found
